@@ -254,7 +254,30 @@ def _flt_assert_small(msg):
     return all(v <= 2.0 for v in vals)
 
 
-MESSAGE_PREDICATES = {'flt_assert_small': _flt_assert_small}
+def _contains(sub):
+    return lambda msg: msg is None or sub in msg
+
+
+def _mode_tie_smallest(msg):
+    """mode() returned the smallest of several equally common values (Python: the first one encountered)."""
+    import re
+    if msg is None:
+        return True
+    m = re.search(r'mode\(x=\[([^\]]*)\]\) = (-?[0-9.]+), Python statistics gives (-?[0-9.]+)', msg)
+    if not m:
+        return False
+    xs = [float(v) for v in m.group(1).split(',') if v.strip()]
+    got, exp = float(m.group(2)), float(m.group(3))
+    top = max(xs.count(v) for v in xs)
+    modes = sorted({v for v in xs if xs.count(v) == top})
+    return len(modes) > 1 and got == modes[0] and exp in modes
+
+
+MESSAGE_PREDICATES = {'flt_assert_small': _flt_assert_small,
+                      'to_bits_type_error': _contains('Binary field or prime field required'),
+                      'array_no_bit_length': _contains("has no attribute 'bit_length'"),
+                      'irreducible_reported_reducible': _contains('= 0, gfpx gives 1'),
+                      'mode_tie_smallest': _mode_tie_smallest}
 
 
 def match_known(prop, case, vclass, known=None, msg=None):
